@@ -1841,12 +1841,12 @@ bn_is_bit_set(bn_p bn, size_t bit) {
 
 	if (NULL == bn)
 		return (0);
+	if ((bn->digits * BN_DIGIT_BITS) <= bit)
+		return (0);
 #if 1
 	if (BN_DIGIT_BITS > bit)
 		return (0 != (bn->num[0] & (((bn_digit_t)1) << bit)));
 #endif
-	if ((bn->digits * BN_DIGIT_BITS) <= bit)
-		return (0);
 	return (0 != (bn->num[(bit / BN_DIGIT_BITS)] & (((bn_digit_t)1) << (bit % BN_DIGIT_BITS))));
 }
 static inline int
